@@ -18,9 +18,14 @@ LineSeqs == << <<>>,
                <<Other("noColon"), Other("long"), Fb(1, "after-long"), Other("unknownName")>> >>   \* a very long diagnostic line
 LinesOf(s) == LineSeqs[((s.die + s.closeAt + Cardinality({c \in Cases : s.ans[c] = "pass"})) % Len(LineSeqs)) + 1]
 
-RECURSIVE LastFb(_, _, _)
-LastFb(ls, c, j) == IF j = 0 THEN "" ELSE IF ls[j].k = "fb" /\ ls[j].c = c THEN ls[j].m ELSE LastFb(ls, c, j - 1)
-SidebandOf(ls) == [c \in Cases |-> LastFb(ls, c, Len(ls))]
+\* every feedback message printed for a case, in the order printed (Sideband.tla: FeedbackOf), as the report shows them
+RECURSIVE AllFb(_, _, _)
+AllFb(ls, c, j) == IF j > Len(ls) THEN ""
+                   ELSE LET rest == AllFb(ls, c, j + 1) IN
+                        IF ls[j].k = "fb" /\ ls[j].c = c
+                          THEN (IF rest = "" THEN ls[j].m ELSE ls[j].m \o "; " \o rest)
+                          ELSE rest
+SidebandOf(ls) == [c \in Cases |-> AllFb(ls, c, 1)]
 ForwardedOf(ls) == SelectSeq([j \in 1..Len(ls) |-> ls[j].k], LAMBDA k : k \notin {"fb", "blank"})
 Emit == Quiescent => PrintT("SCN " \o ToJson([script |-> script, outcome |-> outcome,
                                               sent |-> [c \in Cases |-> c \in sent], aborted |-> aborts >= 1,
